@@ -77,7 +77,7 @@ func (cs *caseJ) key() string {
 }
 
 // The taint tags of Rewrite.tla, each a known (unrepaired) defect of the optimizer.
-var taintTags = []string{"lift-sort-reverse", "lift-sort-nulls", "lift-stateful-expr", "join-dir-nulls", "fork-sortkey", "stale-sortkey", "join-lockstep"}
+var taintTags = []string{"lift-sort-reverse", "lift-sort-nulls", "lift-stateful-expr", "join-dir-nulls", "fork-sortkey", "stale-sortkey", "join-lockstep", "pushdown-error", "merge-filters-error"}
 
 // The rules of Rewrite.tla (non-vacuity: each must fire in some exported case).
 var ruleNames = []string{"merge-filters", "remove-pass", "lift-summarize", "lift-sort-new-merge", "lift-sort-under-merge",
@@ -110,8 +110,9 @@ type harness struct {
 	undetermined   int
 	checked        int
 	planChecked    int
-	lockstepRuns   int
 	lockstepSkips  int
+
+	corpusChecked, corpusSkipErr, corpusSkipOrder, corpusSkipNondet int
 }
 
 // drift reports a spec/code disagreement that is not a property violation.
@@ -205,20 +206,20 @@ func (h *harness) evalCase(cs *caseJ, batch int) {
 	c := h.c
 	prog, in := cs.program(), cs.inputZSON()
 	oTimeout := caseTimeout
-	if hasTaint(cs, "join-lockstep") && batch == 1 && len(cs.Input) >= 3 {
-		// Known defect: the optimized plan can hang (fork and join wait for each
-		// other).  Reproduce it a few times per run, do not pay for every instance.
+	if hasTaint(cs, "join-lockstep") {
+		// Known defect: the optimized plan can hang (the join reads a side whose sort
+		// was skipped while the fork feeding both sides waits for the other one).
+		// Reproduce it a few times per run; do not pay a timeout for every instance.
 		h.mu.Lock()
-		h.lockstepRuns++
-		n := h.lockstepRuns
-		h.mu.Unlock()
-		if n > 4 {
-			h.mu.Lock()
+		skip := h.taintObserved["join-lockstep"] >= 4
+		if skip {
 			h.lockstepSkips++
-			h.mu.Unlock()
+		}
+		h.mu.Unlock()
+		if skip {
 			return
 		}
-		oTimeout = 4 * time.Second
+		oTimeout = 3 * time.Second
 	}
 	U := runProgram(h.ctx, prog, runOpts{NoOptimize: true, SortKey: cs.Sk, Timeout: caseTimeout}, in)
 	O := runProgram(h.ctx, prog, runOpts{SortKey: cs.Sk, Timeout: oTimeout}, in)
@@ -323,7 +324,7 @@ func (h *harness) evalCase(cs *caseJ, batch int) {
 		switch t {
 		case "lift-sort-reverse", "lift-sort-nulls":
 			match = sameBag(U.Rows, O.Rows) // only the order is affected
-		case "lift-stateful-expr", "join-dir-nulls":
+		case "lift-stateful-expr", "join-dir-nulls", "pushdown-error", "merge-filters-error":
 			match = sameBag(eO, cs.Opt.S) // exactly the result the transcribed (wrong) rule predicts
 		case "fork-sortkey", "stale-sortkey":
 			match = true // streaming release on keys that are not contiguous: groups are split, schedule dependent
@@ -405,47 +406,53 @@ func run(c *core.Ctx) error {
 		return h.replay()
 	}
 
+	if os.Getenv("C07_ONLY") == "corpus" { // development aid
+		return h.corpus()
+	}
 	// ---- TLC: exhaustive over short programs
 	cfg := "Rewrite.quick.cfg"
 	if !c.Quick() {
 		cfg = "Rewrite.thorough.cfg"
 	}
+	// The exhaustive run and the seeded simulation (longer programs over the
+	// extended alphabet) are independent; run the two TLC processes side by side.
+	simCfg, simNum, simDepth := "Rewrite.sim.cfg", 40, 5
+	if !c.Quick() {
+		simCfg, simNum = "Rewrite.simthorough.cfg", 2500
+	}
 	t0 := time.Now()
-	res := c.MustHold(core.TLCRun{Module: "Rewrite", Cfg: cfg, Workers: 16, Timeout: 15 * time.Minute})
-	if res == nil {
+	var res, sim *core.TLCResult
+	var wg sync.WaitGroup
+	wg.Add(2)
+	go func() {
+		defer wg.Done()
+		res = c.MustHold(core.TLCRun{Module: "Rewrite", Cfg: cfg, Workers: 12, Timeout: 18 * time.Minute})
+	}()
+	go func() {
+		defer wg.Done()
+		sim = c.MustHold(core.TLCRun{Module: "Rewrite", Cfg: simCfg, Simulate: fmt.Sprintf("num=%d", simNum), Depth: simDepth, Seed: c.Seed, Workers: 1, Timeout: 18 * time.Minute})
+	}()
+	wg.Wait()
+	if res == nil || sim == nil {
 		return nil
 	}
 	cases, err := parseCases(res)
 	if err != nil {
 		return err
 	}
-	res.Out, res.Prints = "", nil
-	c.Logf("TLC exhaustive: %d states, Check holds; %d cases exported (%.1fs)", res.Distinct, len(cases), time.Since(t0).Seconds())
-	if len(cases) == 0 {
-		c.Inconclusive("TLC explored %d states but exported no case", res.Distinct)
+	nEx := len(cases)
+	sc, err := parseCases(sim)
+	if err != nil {
+		return err
 	}
-	c.Set("exhaustive_cases", len(cases))
-
-	// ---- TLC: seeded simulation of longer programs over the extended alphabet
-	simCfg, simNum, simDepth := "Rewrite.sim.cfg", 100, 5
-	if !c.Quick() {
-		simCfg, simNum = "Rewrite.simthorough.cfg", 60000
+	c.Logf("TLC: exhaustive %d states (Check holds), %d cases exported; simulation %d states visited (%.1fs)", res.Distinct, nEx, len(sc), time.Since(t0).Seconds())
+	if nEx == 0 || len(sc) == 0 {
+		c.Inconclusive("TLC exported no case (exhaustive %d, simulation %d)", nEx, len(sc))
 	}
-	t0 = time.Now()
-	sim := c.MustHold(core.TLCRun{Module: "Rewrite", Cfg: simCfg, Simulate: fmt.Sprintf("num=%d", simNum), Depth: simDepth, Seed: c.Seed, Workers: 1, Timeout: 15 * time.Minute})
-	if sim != nil {
-		sc, err := parseCases(sim)
-		if err != nil {
-			return err
-		}
-		sim.Out, sim.Prints = "", nil
-		n0 := len(cases)
-		cases = dedupe(append(cases, sc...))
-		c.Logf("TLC simulation: %d states visited, %d new cases (%.1fs)", len(sc), len(cases)-n0, time.Since(t0).Seconds())
-		c.Set("simulated_states", len(sc))
-	} else {
-		cases = dedupe(cases)
-	}
+	res.Out, res.Prints, sim.Out, sim.Prints = "", nil, "", nil
+	cases = dedupe(append(cases, sc...))
+	c.Set("exhaustive_cases", nEx)
+	c.Set("simulated_states", len(sc))
 	c.Set("cases", len(cases))
 
 	// ---- replay on the real code
